@@ -270,6 +270,33 @@ def check_ops(ctx, model, sess, ops, props=('C02', 'C07', 'C14'), cold=True, tag
                     if not readops.same(gv, want[1]):
                         ctx.fail(f'read {op} with {vname} is not the corresponding slice of the decoded volume',
                                  {'file': desc, 'op': op, 'keyword': vname})
+            if ('C02' in props or 'C09' in props) and got[0] == 'ok' and op[0] in ('il', 'xl', 'zs', 'tr', 'trw', 'sub', 'subp') \
+                    and isinstance(op[1], int) and ctx.stats['ops_in_range'] % 3 == 0:
+                # a read that fails part-way (its first range read raises) between two good ones: the call made again must
+                # return its own slice, not what the reader still holds from the read before the failure
+                nb = None
+                for dlt in (4, -4, 1, -1, fi.lay.bs[1], -fi.lay.bs[1]):
+                    cand = (op[0], op[1] + dlt) + tuple(op[2:]) if op[0] not in ('sub', 'subp') else \
+                        (op[0], op[1] + dlt, op[2] + dlt) + tuple(op[3:])
+                    if cand != op and readops.expected(fi, cand)[0] == 'ok':
+                        nb = cand
+                        break
+                if nb is not None:
+                    sess.handle.plan = iolog.FaultPlan({0: 'exc'})
+                    try:
+                        failed, _ = sess.run(nb, cold=False)
+                    finally:
+                        sess.handle.plan = None
+                    again, _ = sess.run(nb, cold=False)
+                    ctx.stats['retry_after_failed_read'] += 1
+                    wnb = readops.expected(fi, nb)
+                    if again[0] != 'ok' or not readops.same(again[1], wnb[1]):
+                        ctx.fail(f'read {nb} repeated after it had failed with an I/O error (earlier good read: {op}) '
+                                 + ('did not return' if again[0] != 'ok' else 'is not the corresponding slice of the decoded volume'),
+                                 {'file': desc, 'sequence': [op, f'{nb} with its first range read failing ({failed[0]})', nb]})
+                    if failed[0] == 'ok' and not readops.same(failed[1], wnb[1]):
+                        ctx.fail(f'read {nb} whose first range read failed returned a value that is not its slice',
+                                 {'file': desc, 'sequence': [op, nb]})
             if 'C07' in props and got[0] == 'ok':
                 need = readops.needed_blocks(fi, op)
                 tb, outside = readops.touched_blocks(fi, log, sess.data_start)
